@@ -18,7 +18,8 @@ demo() {
   fi
 }
 echo "== demo with change"; demo
-git stash -q
+# (not `git stash`: the stash is shared by all worktrees of a repository, parallel verifications would swap their entries)
+git diff > /tmp/seeded/$ID/.wt.diff; git apply -R /tmp/seeded/$ID/.wt.diff
 echo "== demo without change"; demo
-git stash pop -q
+git apply /tmp/seeded/$ID/.wt.diff
 git status --short | head -5
